@@ -1,1 +1,314 @@
-//! c07 — harnesses not written yet.
+//! C07 — best-so-far and elitist memories only improve and hold the true best.
+//! Code: mahf::state::common::BestIndividual::{new,update}, mahf::components::evaluation::BestIndividualUpdate::{init,execute}, mahf::population::BestIndividual::best_individual, mahf::State::{best_individual,best_objective_value}
+//! Code: mahf::components::archive::{ElitistArchive,ElitistArchiveUpdate,ElitistArchiveIntoPopulation}
+//! Out: the elitist-archive clauses are thorough-tier best effort: the archive can only be filled through its update component, whose sort_unstable_by_key then runs on a Vec whose length the engine cannot fold (quicksort/heapsort paths explored symbolically; no verdict in 10 min) — NOT decided in the quick tier; the run-level clause (for every shipped heuristic the reported best equals the minimum the objective function returned) — a statement about where each template places its update step, i.e. a whole-run property outside this technique; populations larger than 3, archive capacity above 3
+//! Assume: inductive one-step from an arbitrary memory content; archives are built by real update steps (their constructor is private): two-step histories of symbolic populations
+use mahf::components::archive::{ElitistArchive, ElitistArchiveIntoPopulation, ElitistArchiveUpdate};
+use mahf::components::evaluation::BestIndividualUpdate;
+use mahf::components::Component;
+use mahf::population::BestIndividual as BestOf;
+use mahf::state::common::{BestIndividual, Populations};
+use mahf::{Individual, State};
+
+use crate::problems::{obj, TagP};
+use crate::sym;
+
+type Ind = Individual<TagP>;
+
+/// @h tier=quick bound="BestIndividual::update: any memory (empty or any legal value), any legal candidate" unwind=4 cost=2
+#[cfg_attr(kani, kani::proof)]
+#[cfg_attr(kani, kani::unwind(4))]
+pub fn h_c07_best_update() {
+    let (o0, o) = (sym::legal_f64(), sym::legal_f64());
+    let filled = sym::bool();
+    let mut m = BestIndividual::<TagP>::new();
+    assert!(m.is_none(), "a new memory is empty");
+    if filled {
+        assert!(m.update(&Individual::new(0u8, obj(o0))), "the first candidate is always recorded");
+    }
+    let r = m.update(&Individual::new(1u8, obj(o)));
+    let replaced = !filled || o < o0;
+    assert!(r == replaced, "the recorded best is replaced only by a strictly better candidate (and update reports it)");
+    match &*m {
+        Some(b) => {
+            if replaced {
+                assert!(*b.solution() == 1 && b.objective().value().to_bits() == o.to_bits(), "the candidate is recorded with its value");
+            } else {
+                assert!(*b.solution() == 0 && b.objective().value().to_bits() == o0.to_bits(), "the old best is kept on ties and worse candidates");
+            }
+            assert!(b.objective().value() <= o && (!filled || b.objective().value() <= o0), "the recorded best only ever improves");
+        }
+        None => assert!(false, "filled after an update"),
+    }
+    vcover!(filled && o == o0, "tie");
+    vcover!(filled && o < o0, "improvement");
+}
+
+fn mk(n: usize, o: &mut [f64; 4]) -> Vec<Ind> {
+    let mut v = Vec::with_capacity(4);
+    let mut i = 0;
+    while i < n {
+        o[i] = sym::legal_f64();
+        v.push(Individual::new(10 + i as u8, obj(o[i])));
+        i += 1;
+    }
+    v
+}
+
+fn best_of(n: usize) {
+    let mut o = [0.0; 4];
+    let p = mk(n, &mut o);
+    match p.best_individual() {
+        Some(b) => {
+            assert!(n > 0, "only a non-empty population has a best individual");
+            let mut i = 0;
+            let mut member = false;
+            while i < n {
+                assert!(b.objective().value() <= o[i], "the best individual is at least as good as every member");
+                member |= core::ptr::eq(b, &p[i]);
+                i += 1;
+            }
+            assert!(member, "and is a member");
+        }
+        None => assert!(n == 0, "empty population: none"),
+    }
+    vcover!(true, "reached");
+    std::mem::forget(p);
+}
+/// @h tier=quick bound="best_individual of 0 individuals" unwind=3
+#[cfg_attr(kani, kani::proof)]
+#[cfg_attr(kani, kani::unwind(3))]
+pub fn h_c07_best_of_0() {
+    best_of(0)
+}
+/// @h tier=quick bound="best_individual of 3 individuals, all legal objectives" unwind=6 cost=2
+#[cfg_attr(kani, kani::proof)]
+#[cfg_attr(kani, kani::unwind(6))]
+pub fn h_c07_best_of_3() {
+    best_of(3)
+}
+
+fn update_component(n: usize) {
+    let mut o = [0.0; 4];
+    let prev = sym::legal_f64();
+    let filled = sym::bool();
+    let mut m = BestIndividual::<TagP>::new();
+    if filled {
+        m.update(&Individual::new(0u8, obj(prev)));
+    }
+    let mut pops = Populations::<TagP>::new();
+    pops.push(mk(n, &mut o));
+    let mut s: State<TagP> = State::new();
+    s.insert(m);
+    s.insert(pops);
+    let r = Component::<TagP>::execute(&BestIndividualUpdate::from_params(), &TagP, &mut s);
+    assert!(r.is_ok(), "the update step succeeds");
+    let b = s.best_objective_value();
+    if n == 0 {
+        assert!(b.map(|v| v.value().to_bits()) == if filled { Some(prev.to_bits()) } else { None }, "an empty population changes nothing");
+    } else {
+        match b {
+            Some(b) => {
+                let mut i = 0;
+                while i < n {
+                    assert!(b.value() <= o[i], "right after an update the best is at least as good as every individual of the population");
+                    i += 1;
+                }
+                if filled {
+                    assert!(b.value() <= prev, "the recorded best only ever improves");
+                }
+                // it is the previous one or a member
+                let mut from = filled && b.value() == prev;
+                let mut i = 0;
+                while i < n {
+                    from |= b.value() == o[i];
+                    i += 1;
+                }
+                assert!(from, "the recorded best is a value that was actually seen");
+            }
+            None => assert!(false, "a non-empty population fills the memory"),
+        }
+    }
+    {
+        let p = s.populations();
+        assert!(p.len() == 1 && p.current().len() == n, "the population is untouched");
+    }
+    vcover!(true, "reached");
+    std::mem::forget(s);
+}
+/// @h tier=quick bound="update step from any memory, empty population" unwind=4 cost=3 mem=10
+#[cfg_attr(kani, kani::proof)]
+#[cfg_attr(kani, kani::unwind(4))]
+pub fn h_c07_update_0() {
+    update_component(0)
+}
+/// @h tier=quick bound="update step from any memory, 2 individuals with any legal objectives" unwind=5 cost=4 mem=10
+#[cfg_attr(kani, kani::proof)]
+#[cfg_attr(kani, kani::unwind(5))]
+pub fn h_c07_update_2() {
+    update_component(2)
+}
+/// @h tier=thorough bound="update step from any memory, 3 individuals" unwind=6 cost=6 mem=16 timeout=1200
+#[cfg_attr(kani, kani::proof)]
+#[cfg_attr(kani, kani::unwind(6))]
+pub fn h_c07_update_3() {
+    update_component(3)
+}
+/// @h tier=quick bound="init inserts an empty memory" unwind=4 cost=2
+#[cfg_attr(kani, kani::proof)]
+#[cfg_attr(kani, kani::unwind(4))]
+pub fn h_c07_update_init() {
+    let mut s: State<TagP> = State::new();
+    assert!(Component::<TagP>::init(&BestIndividualUpdate::from_params(), &TagP, &mut s).is_ok(), "init");
+    assert!(s.best_individual().is_none() && s.best_objective_value().is_none(), "nothing recorded yet");
+    vcover!(true, "reached");
+    std::mem::forget(s);
+}
+
+// ---- elitist archive -------------------------------------------------------------------------------
+
+fn tag_in(a: &[Ind], t: u8) -> bool {
+    let mut i = 0;
+    while i < a.len() {
+        if *a[i].solution() == t {
+            return true;
+        }
+        i += 1;
+    }
+    false
+}
+
+/// Two real update steps with symbolic populations A then B: afterwards the archive holds the k
+/// best of everything it has been shown.
+fn archive(k: usize, na: usize, nb: usize) {
+    let (mut oa, mut ob) = ([0.0; 4], [0.0; 4]);
+    let c = ElitistArchiveUpdate::from_params(k);
+    let mut s: State<TagP> = State::new();
+    let mut pops = Populations::<TagP>::new();
+    pops.push(mk(na, &mut oa));
+    s.insert(pops);
+    assert!(Component::<TagP>::init(&c, &TagP, &mut s).is_ok(), "init");
+    assert!(Component::<TagP>::execute(&c, &TagP, &mut s).is_ok(), "first update");
+    {
+        let mut v = Vec::with_capacity(4);
+        let mut i = 0;
+        while i < nb {
+            ob[i] = sym::legal_f64();
+            v.push(Individual::new(20 + i as u8, obj(ob[i])));
+            i += 1;
+        }
+        s.populations_mut().push(v);
+    }
+    assert!(Component::<TagP>::execute(&c, &TagP, &mut s).is_ok(), "second update");
+    {
+        let ar = s.borrow::<ElitistArchive<TagP>>();
+        let e = ar.elitists();
+        let total = na + nb;
+        assert!(e.len() == if k < total { k } else { total }, "an archive of capacity k holds min(k, shown) individuals");
+        // worst kept value
+        let mut worst = f64::NEG_INFINITY;
+        let mut i = 0;
+        while i < e.len() {
+            let t = *e[i].solution();
+            let v = e[i].objective().value();
+            let ok = if t >= 20 { ((t - 20) as usize) < nb && v.to_bits() == ob[(t - 20) as usize].to_bits() } else { t >= 10 && ((t - 10) as usize) < na && v.to_bits() == oa[(t - 10) as usize].to_bits() };
+            assert!(ok, "archived individuals are individuals that were shown, with their values");
+            let mut j = 0;
+            while j < i {
+                assert!(*e[j].solution() != t, "no individual is archived twice");
+                j += 1;
+            }
+            if v > worst {
+                worst = v;
+            }
+            i += 1;
+        }
+        let mut i = 0;
+        while i < na {
+            if !tag_in(e, 10 + i as u8) {
+                assert!(e.is_empty() || oa[i] >= worst, "no individual left out is better than an archived one (first population)");
+            }
+            i += 1;
+        }
+        let mut i = 0;
+        while i < nb {
+            if !tag_in(e, 20 + i as u8) {
+                assert!(e.is_empty() || ob[i] >= worst, "no individual left out is better than an archived one (second population)");
+            }
+            i += 1;
+        }
+    }
+    vcover!(true, "reached");
+    std::mem::forget(s);
+}
+/// @h tier=thorough bound="capacity 3, populations of 1 then 2 (archive not yet full), all legal objectives" unwind=6 cost=9 mem=28 timeout=3000
+#[cfg_attr(kani, kani::proof)]
+#[cfg_attr(kani, kani::unwind(6))]
+pub fn h_c07_archive_k3_1_2() {
+    archive(3, 1, 2)
+}
+/// @h tier=thorough bound="capacity 1, populations of 1 then 1" unwind=5 cost=9 mem=28 timeout=3000
+#[cfg_attr(kani, kani::proof)]
+#[cfg_attr(kani, kani::unwind(5))]
+pub fn h_c07_archive_k1_1_1() {
+    archive(1, 1, 1)
+}
+/// @h tier=thorough bound="capacity 2, populations of 2 then 1 (archive full after the first)" unwind=6 cost=9 mem=28 timeout=3000
+#[cfg_attr(kani, kani::proof)]
+#[cfg_attr(kani, kani::unwind(6))]
+pub fn h_c07_archive_k2_2_1() {
+    archive(2, 2, 1)
+}
+/// @h tier=thorough bound="capacity 0" unwind=5 cost=9 mem=28 timeout=3000
+#[cfg_attr(kani, kani::proof)]
+#[cfg_attr(kani, kani::unwind(5))]
+pub fn h_c07_archive_k0() {
+    archive(0, 1, 1)
+}
+/// @h tier=thorough bound="capacity 2, populations of 2 then 2" unwind=7 cost=8 mem=20 timeout=1800
+#[cfg_attr(kani, kani::proof)]
+#[cfg_attr(kani, kani::unwind(7))]
+pub fn h_c07_archive_k2_2_2() {
+    archive(2, 2, 2)
+}
+
+/// Re-insertion: every archived individual is in the population afterwards, and one that was
+/// already there is not added again.
+/// @h tier=thorough bound="archive of 2 (built by an update from [a,b]); population = [a (same individual), c]; all legal objectives" unwind=6 cost=9 mem=28 timeout=3000
+#[cfg_attr(kani, kani::proof)]
+#[cfg_attr(kani, kani::unwind(6))]
+pub fn h_c07_archive_reinsert() {
+    let (oa, ob, oc) = (sym::legal_f64(), sym::legal_f64(), sym::legal_f64());
+    let c = ElitistArchiveUpdate::from_params(2);
+    let mut s: State<TagP> = State::new();
+    let mut pops = Populations::<TagP>::new();
+    pops.push(vec![Individual::new(10u8, obj(oa)), Individual::new(11u8, obj(ob))]);
+    s.insert(pops);
+    assert!(Component::<TagP>::init(&c, &TagP, &mut s).is_ok(), "init");
+    assert!(Component::<TagP>::execute(&c, &TagP, &mut s).is_ok(), "update");
+    s.populations_mut().pop();
+    s.populations_mut().push(vec![Individual::new(10u8, obj(oa)), Individual::new(12u8, obj(oc))]);
+    let r = ElitistArchiveIntoPopulation::from_params();
+    assert!(Component::<TagP>::require(&r, &TagP, &s.requirements()).is_ok(), "archive present");
+    assert!(Component::<TagP>::execute(&r, &TagP, &mut s).is_ok(), "re-insertion");
+    {
+        let p = s.populations();
+        let cur = p.current();
+        assert!(cur.len() == 3, "the archived individual that was missing is added, the one already present is not duplicated");
+        let count = |t: u8| -> usize {
+            let mut n = 0;
+            let mut i = 0;
+            while i < cur.len() {
+                if *cur[i].solution() == t {
+                    n += 1;
+                }
+                i += 1;
+            }
+            n
+        };
+        assert!(count(10) == 1 && count(11) == 1 && count(12) == 1, "each individual exactly once");
+        assert!(cur[2].is_evaluated() && cur[2].objective().value().to_bits() == ob.to_bits(), "re-inserted with its objective value");
+    }
+    vcover!(true, "reached");
+    std::mem::forget(s);
+}
